@@ -309,6 +309,9 @@ structure Input where
   conf : Option Conf
   st : Prepared
   facts : GraphFacts
+  /-- handler stream, only when NGINX runs the last applied configuration: the Gateway statuses a FRESH handler (nil reload
+  result) issues for the same graph — the real `PrepareGatewayRequests` + setters -/
+  fresh : List GatewayStatus := []
 
 def Input.ours (i : Input) : List OGateway := ourGateways i.objs i.cls i.ctl
 def Input.winner (i : Input) : Option OGateway := NGF.StatusJudge.winner i.ours
@@ -560,6 +563,24 @@ def clauseGeneration (i : Input) : List String :=
       if gs.conds.any (·.gen ≠ g.gen) || gs.listeners.any (fun l => l.conds.any (·.gen ≠ g.gen))
       then ["generation:gateway@" ++ g.ns ++ "/" ++ g.name] else []
 
+/-- `recovered`: status tells the truth about what is programmed also AFTER a recovery — when NGINX runs the last applied
+configuration (`reloadErr = false`) the Gateway / listener statuses as they stand must report Programmed=True wherever a freshly
+started handler (nil reload result, same graph) reports it; a remembered failure that outlives a successful apply is a lie in the
+other direction -/
+def clauseRecovered (i : Input) : List String :=
+  if i.reloadErr then [] else
+  i.fresh.flatMap fun f =>
+    match findGateway i.st f.ns f.name with
+    | none => []
+    | some gs =>
+      let gwBad := isTrue f.conds "Programmed" && !isTrue gs.conds "Programmed"
+      let lsBad := f.listeners.filter fun fl =>
+        isTrue fl.conds "Programmed" && !(gs.listeners.any fun l => l.name = fl.name && isTrue l.conds "Programmed")
+      if gwBad || !lsBad.isEmpty then
+        ["programmed:false-after-successful-reload@" ++ f.ns ++ "/" ++ f.name ++
+          (if gwBad then ":gateway" else "") ++ (if lsBad.isEmpty then "" else ":listeners=" ++ ",".intercalate (lsBad.map (·.name)))]
+      else []
+
 /-- reason STATISTIC (see `reasonDisagreements`; not in `judge`): the Gateway API reasons of a rejected L7 parentRef say what is the case (RouteConditionReason docs:
 NoMatchingParent = "no parent matches sectionName/port", NotAllowedByListeners = "not allowed by the listeners' allowedRoutes",
 NoMatchingListenerHostname = "no compatible listener whose hostname matches the route"), read over the objects:
@@ -626,7 +647,7 @@ def skipReason (i : Input) : Option String :=
 
 def judge (i : Input) : List String :=
   clauseEntries i ++ clauseAccepted i ++ clauseAttached i ++ clauseResolved i ++ clauseProgrammed i ++
-    clausePolicies i ++ clauseGeneration i
+    clausePolicies i ++ clauseGeneration i ++ clauseRecovered i
 
 /-- STATISTIC, not part of the verdict: where the REASON of an Accepted=False condition differs from the Gateway API reading of
 the objects. Property C07 speaks of Accepted true/false, attachedRoutes, ResolvedRefs true/false, entries and Programmed after a
